@@ -569,7 +569,9 @@ class ScrollBar(WidgetDecoration[WrappedWidget]):
         thumb_height = max(1, round(thumb_weight * maxrow))  # pylint: disable=possibly-used-before-assignment
 
         # Thumb may only touch top/bottom if the first/last row is visible
-        top_weight = float(pos) / max(1, posmax)  # pylint: disable=possibly-used-before-assignment
+        # a widget decorated between the bar and the scrolling widget (LineBox) makes that widget smaller than ow_size:
+        # its real position can be beyond the posmax calculated here
+        top_weight = min(1.0, float(pos) / max(1, posmax))  # pylint: disable=possibly-used-before-assignment
         top_height = int((maxrow - thumb_height) * top_weight)
         if top_height == 0 and top_weight > 0 and maxrow > thumb_height:
             top_height = 1
